@@ -3,6 +3,7 @@ from __future__ import annotations
 
 from ..absint import new_interp, Interp, HList, HDict, HInst, NONE, const, is_const, fmt, fmt_seg, mk_not
 from ..berp import grammar
+from ..names import N
 from ..common import AnalysisError, Report
 from ..facts import facts
 from .. import nf
@@ -25,7 +26,7 @@ def canon(t, memo=None):
         return memo[t]
     new = tuple(canon(x, memo) if isinstance(x, tuple) else x for x in t)
     r = new
-    if new[0] == "item" and isinstance(new[1], tuple) and new[1][0] == "attr" and new[1][2] == "_sub_items":
+    if new[0] == "item" and isinstance(new[1], tuple) and new[1][0] == "attr" and new[1][2] == N.SUB_ITEMS:
         r = ("items", new[1][1], new[2][1] if is_const(new[2]) else new[2])
     elif new[0] == "cond" and isinstance(new[1], tuple) and new[1][0] == "items" \
             and new[2] == ("item", new[1], const(0)):
